@@ -11,14 +11,22 @@
       ([C11_interference_free]), and the tables of control words and handover spaces stay
       well-formed when nodes are added ([C11_tables]);
     - steps of other threads never touch a thread's local node data ([C11_thread_local]).
-    The global statement "at most one holder per node and in_use = USED iff it has one" is
-    clause [wf_unique]/[wf_inuse] of [Inv.WF]; the induction over schedules that assembles it
-    from the obligations above is not finished (partial).
+    - the global theorem [C11_exclusive]: in EVERY reachable state (any schedule, any number of
+      threads ever started, any programs) a node has at most one holder — a thread whose
+      LocalNode points to it, or the thread running its cooldown — and [in_use = USED] exactly
+      when it has one: bookkeeping is never used by two threads at a time.
     The numeric bound is checked by computation for strictly sequential churn (below: three
     threads one after the other use ONE node) and by the correspondence oracle; the literal
     "<= peak number of live threads" is false of the code (known finding D7: a writer inside a
     cooling node forces a new node), see known_findings.txt. *)
-From ASModel Require Import Base State Orderings_gen Step Run Progress Hist Inv InvTl InvProto.
+From ASModel Require Import Base State Orderings_gen Step Run Progress Hist Inv InvTl InvProto InvStep.
+
+Theorem C11_exclusive :
+  forall cf inits progs sched,
+    let s := fst (run cf (init_state inits progs) sched) in
+    (forall t t' n, holder (thr s t) = Some n -> holder (thr s t') = Some n -> t = t') /\
+    (forall n, n < nn s -> (mem (sh s) (LInUse n) = NODE_USED <-> exists t, holder (thr s t) = Some n)).
+Proof. exact node_exclusive. Qed.
 
 Theorem C11_ownership_transitions :
   forall cf s l p x s' l' evs nx,
@@ -61,6 +69,7 @@ Example C11_sequential_churn_one_node :
   t_status (thr ex_final 0) = Exited /\ t_status (thr ex_final 1) = Exited /\ t_status (thr ex_final 2) = Exited.
 Proof. vm_compute. repeat split; reflexivity. Qed.
 
+Print Assumptions C11_exclusive.
 Print Assumptions C11_ownership_transitions.
 Print Assumptions C11_thread_local.
 Print Assumptions C11_interference_free.
